@@ -625,6 +625,9 @@ func evalMixed(c Case) (vev.Outcome, error) {
 			if wantCode == 1 {
 				wantCode = 404
 			}
+			if wantCode < 0 {
+				wantCode = -wantCode // the backend wrapped its HTTP error with %w
+			}
 		}
 		if wantCode != 0 {
 			if r.Status == nil || *r.Status != wantCode {
@@ -1107,7 +1110,7 @@ func TestMultigetMixed(t *testing.T) {
 		n := rapid.IntRange(1, 6).Draw(rt, "nobjs")
 		for j := 0; j < n; j++ {
 			cl.Objs = append(cl.Objs, genObj(rt, j, cal))
-			c.Fail = append(c.Fail, rapid.SampledFrom([]int{0, 0, 0, 1, 403, 404, 507, 423}).Draw(rt, "fail"))
+			c.Fail = append(c.Fail, rapid.SampledFrom([]int{0, 0, 0, 1, 403, 404, 507, 423, -404, -423, -403}).Draw(rt, "fail"))
 		}
 		c.Colls = []Coll{cl}
 		run(t, rt, c)
